@@ -21,7 +21,7 @@ def make_conf(d, sc, out_name, start=0):
     conf = rf.base_config(
         start=start, stop=sc["N"] * sc["dt"], dt=sc["dt"], forcing_file=d / "f_*.nc", grid_file=d / "f_000.nc", release_file=d / "r.rls",
         out_file=d / out_name, advection=sc.get("adv", "EF"), output_period=sc["p"] * sc["dt"], numrec=sc["numrec"],
-        reference=0, instance_variables=("pid", "X", "Y", "Z", "age", "temp"),
+        reference=sc.get("reference", 0), instance_variables=("pid", "X", "Y", "Z", "age", "temp"),
     )
     conf["state"] = {"instance_variables": {"age": "float", "temp": "float"}, "default_values": {"age": 0.0, "temp": 0.0}}
     conf["forcing"]["extra_forcing"] = ["temp"]
@@ -69,7 +69,7 @@ def files_of(d, stem):
 def records_of(paths):
     recs = []
     for p in paths:
-        o = rl.read_sparse(p)
+        o = rl.read_sparse(p, absolute=True)
         for r in o["records"]:
             r = dict(r)
             r["file"] = p.name
